@@ -34,6 +34,7 @@ import (
 
 	"github.com/google/martian/v3/h2"
 	"github.com/google/martian/v3/log"
+	"github.com/google/martian/v3/verifhook"
 )
 
 // MaxSerialNumber is the upper boundary that is used to create unique serial
@@ -260,6 +261,7 @@ func (c *Config) cert(hostname string) (*tls.Certificate, error) {
 	}
 
 	log.Debugf("mitm: cache miss for %s", hostname)
+	verifhook.Point("mitm.cert.afterCacheMiss")
 
 	serial, err := rand.Int(rand.Reader, MaxSerialNumber)
 	if err != nil {
